@@ -2877,6 +2877,10 @@ class RedunBackendDb(RedunBackend):
             for key, value in tags
         ]
 
+        # The same key-value pair may be given more than once (e.g. apply_tags() called twice
+        # in one job). Identical tags share a tag_hash, so only record one row for them.
+        tag_rows = list({tag_row.tag_hash: tag_row for tag_row in tag_rows}.values())
+
         if new:
             # Here, we force the tags to be current by walking down the
             # tag graph until we reach a leaf.
